@@ -7,12 +7,34 @@
    table KIND (payloadid | ethertype | ipproto | udpports)
      model column: the model's classification table (the lists the model is defined from) in canonical text
      key column:   key of the recorded defect class the frame lies in (Model/ParseKnown.v, known_C02) or "-" *)
-From PV Require Import Base.Text Base.Slice Model.Parse Model.ParseShow Model.ParseKnown.
+From PV Require Import Base.Text Base.Slice Model.Parse Model.ParseFixes Model.ParseShow Model.ParseKnown.
 Open Scope string_scope.
 Open Scope N_scope.
 
 Definition TAB : string := String (ascii_of_N 9) EmptyString.
 Definition out3 (m s k : string) : string := m ++ TAB ++ s ++ TAB ++ k.
+
+Definition pp2_cfg : cfg := mkCfg [0;85;85;85;85;85] [0;102;102;102;102;102] [192;168;0;0] 24 current_fixes.
+Definition pp2_tok (t : string) : option (bool * bytes) :=
+  match t with
+  | String k (String ":"%char h) =>
+      match bytes_of_tok h with Some b => Some (Ascii.eqb k "m"%char, b) | None => None end
+  | _ => None
+  end.
+Fixpoint pp2_run (toks : list string) (accm accs : list string) (woken : bool) : option (string * string) :=
+  match toks with
+  | [] => let p := if woken then "ping:ok" else "ping:timeout" in
+          Some (join " | " (rev (p :: accm)), join " | " (rev (p :: accs)))
+  | t :: r =>
+      match pp2_tok t with
+      | None => None
+      | Some (m, b) =>
+          let w := match parse pp2_cfg (of_bytes b) with
+                   | Ok f => m && match f_echo f with Some _ => true | None => false end
+                   | _ => false end in
+          pp2_run r (show_parse pp2_cfg (of_bytes b) :: accm) (show_spec b :: accs) (woken || w)
+      end
+  end.
 
 Definition dispatch (kind : string) (args : list string) : string :=
   if String.eqb kind "d" then
@@ -23,6 +45,18 @@ Definition dispatch (kind : string) (args : list string) : string :=
             out3 (show_parse c (of_bytes_cap b spare)) (show_spec b)
                  (match known_C02 (c_fx c) b with Some k => k | None => "-" end)
         | _, _, _ => BADARGS
+        end
+    | _ => BADARGS
+    end
+  else if String.eqb kind "pp" then
+    (* pp FAM MS tok...: frames parsed while a ping is pending.  Parse is a function of (configuration, bytes) only:
+       the model has no waiter table to look at, so its answer is the C02 projection of every frame as in kind d (the
+       reference decoder's line is the spec column) and ping:ok iff some frame carrying the pending id has f_echo. *)
+    match args with
+    | _fam :: _ms :: toks =>
+        match pp2_run toks [] [] false with
+        | Some (m, s) => out3 m s "-"
+        | None => BADARGS
         end
     | _ => BADARGS
     end
